@@ -132,6 +132,14 @@ func cmdCheck(args []string) {
 				s.re = regexp.MustCompile(s.Funcs)
 			}
 			if s.re.MatchString(k) {
+				if s.Exclude != "" {
+					if s.reEx == nil {
+						s.reEx = regexp.MustCompile(s.Exclude)
+					}
+					if s.reEx.MatchString(k) {
+						continue
+					}
+				}
 				fns = append(fns, ctx.funcs[k])
 				break
 			}
@@ -382,6 +390,28 @@ func writeEvidence(id, tier string, seed int, pf *propFile, extra map[string]int
 				trusted = append(trusted, "axiom ("+shortKey(pp)+"): "+a.Text)
 			}
 		}
+	}
+	if samples == nil {
+		samples = []interface{}{}
+	}
+	if fa, ok := extra["frame_analysis"].(map[string]interface{}); ok {
+		for _, k := range []string{"F1_samples", "F2_samples"} {
+			if xs, ok := fa[k].([]string); ok {
+				for _, x := range xs {
+					samples = append(samples, x)
+				}
+			}
+		}
+	}
+	if rg, ok := extra["registry"].(map[string]interface{}); ok {
+		if xs, ok := rg["samples"].([]string); ok {
+			for _, x := range xs {
+				samples = append(samples, x)
+			}
+		}
+	}
+	if undischarged == nil {
+		undischarged = []interface{}{}
 	}
 	cov := map[string]interface{}{
 		"obligations": nObl, "discharged": nDis, "known_findings": nKnown,
